@@ -14,7 +14,7 @@ ASSUMPTIONS = [
     "(round-to-nearest-even division, exact comparisons against the source's literals)",
 ]
 OUTSIDE = ["N above the bounds (seq: see bounds; fp: N > 1000)"]
-NMAX = {"quick": 10, "thorough": 26}
+NMAX = {"quick": 10, "thorough": 20}
 FPMAX = {"quick": 100, "thorough": 1000}
 ITEM_TIMEOUT = {"quick": 400, "thorough": 3000}
 
